@@ -564,6 +564,13 @@ func (s *Session) dataHandler() {
 		s.enterState(QUIT)
 		return
 	}
+	if len(msgBuf) > s.config.MaxMessageBytes {
+		// The client did not declare SIZE, or declared less than it sent.
+		s.logger.Warn().Msgf("Message of %v bytes exceeds the maximum size", len(msgBuf))
+		s.send("552 Max message size exceeded")
+		s.reset()
+		return
+	}
 	mailData := bytes.NewBuffer(msgBuf)
 
 	// Generate Received header; Deliver() will append recipient and timestamp to this.
